@@ -171,6 +171,20 @@ pub fn wasm(sink: &mut Sink, seed: u64, thorough: bool, alphabet: &str, behaviou
         let id = sink.id();
         sink.emit(&wasm_svg_event(id, "wasmbig", &content, &prog));
     }
+    // every value of every enumerated option once: 40 versions (each with every level), 6 shapes, 3 frame shapes, margins 0..20 and a few large ones
+    for v in 1..=40usize { for e in 0..4usize {
+        if !thorough && (v + e) % 2 == (seed % 2) as usize { continue; }
+        let id = sink.id();
+        sink.emit(&wasm_svg_event(id, &format!("wasmenum:version:{v}"), contents[(v + e) % 3], &[WCall::Version(v), WCall::Ecl(e)]));
+    } }
+    for sh in 0..6usize { for k in 0..3usize {
+        let id = sink.id();
+        sink.emit(&wasm_svg_event(id, "wasmenum:shape", contents[sh % 2], &[WCall::Shape(sh), WCall::Image("logo.png".to_string()), WCall::ImageBackgroundShape(k)]));
+    } }
+    for m in (0..=20usize).chain([33usize, 64, 120, 255, 256, 1000]) {
+        let id = sink.id();
+        sink.emit(&wasm_svg_event(id, "wasmenum:margin", contents[m % 2], &[WCall::Margin(m)]));
+    }
     // longer seeded programs over concrete pools
     for i in 0..(if thorough { 4000 } else { 600 }) {
         let len = r.gen_range(1..9);
